@@ -1038,13 +1038,15 @@ class PairsToIndex(ast.NodeTransformer):
         node = self.generic_visit(node)
         for gi, g in enumerate(node.generators):
             X = _pairs_source(g.iter)
-            if X is None or not (isinstance(g.target, ast.Tuple) and len(g.target.elts) == 2):
+            if X is None or not ((isinstance(g.target, ast.Tuple) and len(g.target.elts) == 2) or isinstance(g.target, ast.Name)):
                 continue
             j = _fresh("pair")
             xa = ast.Subscript(value=copy.deepcopy(X), slice=ast.Name(id=j, ctx=ast.Load()), ctx=ast.Load())
             xb = ast.Subscript(value=copy.deepcopy(X), slice=ast.BinOp(left=ast.Name(id=j, ctx=ast.Load()), op=ast.Add(), right=ast.Constant(1)), ctx=ast.Load())
             env: Dict[str, ast.AST] = {}
-            for t_, v_ in zip(g.target.elts, (xa, xb)):
+            if isinstance(g.target, ast.Name):
+                env[g.target.id] = ast.Tuple(elts=[xa, xb], ctx=ast.Load())
+            for t_, v_ in (zip(g.target.elts, (xa, xb)) if isinstance(g.target, ast.Tuple) else []):
                 if isinstance(t_, ast.Name):
                     env[t_.id] = v_
                 elif isinstance(t_, (ast.Tuple, ast.List)):
